@@ -30,6 +30,8 @@ static const int MAXOBJ = 16;
 static std::atomic<int> g_destroyed[MAXOBJ];
 static std::atomic<int> g_live[MAXOBJ];
 
+static void inspectHandles();
+
 struct Base : public RefCount
 {
   int id;
@@ -38,10 +40,20 @@ struct Base : public RefCount
   {
     g_destroyed[id]++;
     g_live[id] = 0;
+    inspectHandles();
   }
 };
 
-struct Node : public Base
+// Node's counted base is NOT its first base: a polymorphic first base makes the Base sub-object start at a non-zero
+// offset, so every Ref<Node> -> Ref<Base> conversion has to adjust the pointer.
+struct Tagged
+{
+  long tag[2];
+  Tagged() : tag{0x1111111111111111L, 0x2222222222222222L} {}
+  virtual ~Tagged() {}
+};
+
+struct Node : public Tagged, public Base
 {
   Ref<Base> next;
   Node(int i) : Base(i) {}
@@ -94,6 +106,20 @@ static Loc parseLoc(const std::string &w)
 
 #define RB(l) (*reinterpret_cast<Ref<Base> *>((l).p))
 #define RD(l) (*reinterpret_cast<Ref<Node> *>((l).p))
+
+// `watchall on`: while an object is being destroyed its destructor looks at every handle variable that exists at that
+// moment (copies it and drops the copy, as an owner callback would: `Ref<Base> cur = current;`). Legal - the handles are
+// live objects - and without effect on any count, provided no live handle still designates the object being destroyed.
+static bool g_watch = false;
+static void inspectHandles()
+{
+  if (!g_watch || !g) return;
+  for (int x = 0; x < 7; x++) {
+    if (!g->made[x]) continue;
+    if (isD(x)) { Ref<Node> cur(*reinterpret_cast<Ref<Node> *>(g->store[x])); (void)cur; }
+    else { Ref<Base> cur(*reinterpret_cast<Ref<Base> *>(g->store[x])); (void)cur; }
+  }
+}
 
 struct POp
 {
@@ -183,8 +209,8 @@ static void doOp(const POp &o)
     g->made[o.x.cell] = true;
     break;
   case DTOR:
+    g->made[o.x.cell] = false;   // from here on the variable is not a live handle any more (not inspected by destructors)
     if (o.x.d) RD(o.x).~Ref<Node>(); else RB(o.x).~Ref<Base>();
-    g->made[o.x.cell] = false;
     break;
   case COPY:
     if (o.x.d) RD(o.x) = static_cast<const Ref<Node> &>(RD(o.y));
@@ -339,6 +365,7 @@ int main()
     g = new Cells();
     for (int i = 0; i < MAXOBJ; i++) { g_destroyed[i] = 0; g_live[i] = 0; }
     g_progs.clear();
+    g_watch = false;
   };
   reset();
   return vh::run(reset, [&](const std::vector<std::string> &w) -> std::string {
@@ -356,7 +383,8 @@ int main()
       g_progs.emplace_back(std::stoi(w[1]), std::move(ops));
       return "ok";
     }
-    if (w[0] == "mtrun") return runThreads();
+    if (w[0] == "watchall" && w.size() == 2) { g_watch = w[1] == "on"; return showState(); }
+    if (w[0] == "mtrun") { g_watch = false; return runThreads(); }
     if (w[0] == "acq_race" && w.size() == 3) {
       int k = std::stoi(w[1]);
       if (k < 0 || k >= g->nobj || !g_live[k]) return "bad-op";
